@@ -73,7 +73,9 @@ fn build_dest(r: &mut Rng, model: &ModelTree, dest: &Path, outside: &Path) -> BT
                     let i = r.usize_below(v.len());
                     v[i] ^= 0xff;
                     std::fs::write(&p, &v).unwrap();
-                    set_meta(&p, 0o600, later);
+                    // the mtime differs by 1000 s, or only in its sub-second part (still "size/mtime differing")
+                    let near = (e.mtime.0, if e.mtime.1 >= 500_000_000 { e.mtime.1 - 400_000_000 } else { e.mtime.1 + 400_000_000 });
+                    set_meta(&p, 0o600, if r.chance(1, 2) { near } else { later });
                 }
             }
             (Kind::File(b), Mutation::Truncated) => {
